@@ -13,10 +13,21 @@ THEOREMS = [
     ('EAO.Properties.C09', 'EAO.C09.assemble_value', 'value = sum of the assets\' values on their blocks'),
     ('EAO.Properties.C09', 'EAO.C09.assemble_perm', 'for a permutation of the asset list every feasible point rearranges block-wise into a feasible point of the permuted problem with the same value and the same block per asset (assets whose rows mention only their own variables)'),
 ]
-COMPONENTS = ['hypotheses of the assembly theorems (well-formedness of asset problems) evaluated on every captured real asset problem', 'assemble on captured asset problems for the original, the renamed and the permuted portfolio']
-RULE = ('random portfolios, each re-run (a) under an adversarial injective renaming of assets and nodes (numeric names, prefixes/suffixes of each other, names containing " (", "_internal_", "nan") and (b) under a random permutation of the assets; '
-        'values compared and the solution of each variant transported block-wise into the original problem; non-trivial = solved, >= 3 assets, value != 0; distinct by scenario hash')
-ASSUMPTIONS = ['ties between optimal solutions are allowed: solutions are compared by transporting them into the other problem (feasibility + value), not entry by entry']
+COMPONENTS = ['hypotheses of the assembly theorems (well-formedness of asset problems) evaluated on every captured real asset problem', 'assemble on captured asset problems for the original, the renamed, the permuted and the renamed-in-place portfolio (hypotheses also on the latter)']
+RULE = ('random portfolios, each re-run (a) under an adversarial injective renaming of assets and nodes (numeric names, prefixes/suffixes of each other, names containing " (", "_internal_", "nan") and (b) under a random permutation of the assets, '
+        '(c) rename-inplace: the objects are built once under the original names and, as drawn, optimised / set up / left alone; then the very same Node and Asset objects (incl. base assets of scaled and wrapped assets of structured assets) '
+        'get the names of (a) by assignment to .name and are given to a new Portfolio (as drawn: permuted, on a new time grid object); same comparison as for (a); '
+        'values compared and the solution of each variant transported block-wise into the original problem; non-trivial = solved, >= 3 assets, value != 0; distinct by scenario hash; '
+        'LinkedAsset stream (own generator gen_linked): small MIP portfolios around a LinkedAsset wrapping a CHPAsset/Plant with on-variable and a second asset (plant, contract at the power node or at an internal node behind a transport), '
+        'link given by names or by objects, all wrapped assets on the same window (none / the wrapper\'s / a common own one); variants rename, permute, rename+permute, permute-inner, rename-inplace; same oracle; '
+        'probe linked-inner-order: one of the two linked wrapped assets gets a shorter window (drawn: which, start or end, which one comes last); set up in the drawn and in the reversed inner order, outcomes compared (finding F-09e)')
+ASSUMPTIONS = ['ties between optimal solutions are allowed: solutions are compared by transporting them into the other problem (feasibility + value), not entry by entry',
+               'rename-inplace: what is renamed are Node.name and Asset.name (public attributes); a Portfolio files its nodes under their names when it is created, so after the renaming '
+               'every Portfolio object - the outer one and the one wrapped by a structured asset - is created anew from the same asset objects (re-using a Portfolio created before the renaming is not claimed to work); '
+               'rename-inplace with a LinkedAsset: LinkedAsset.__init__ turns the two nodes of its link into name strings (for a node that is not one of its own nodes: <own name>_internal_<node name>), and set-up raises IndexError '
+               'when these no longer match; renaming the NODES of a LinkedAsset (own and wrapped) in place is therefore out of scope and these nodes keep their names in this variant (other nodes and all assets are renamed); '
+               'TODO, decision pending: for the same reason a LinkedAsset whose link names an internal node keeps its OWN name in this variant. The rebuilt variants (rename, rename+permute) rename everything',
+               'LinkedAsset stream: all wrapped assets live on the same window; with differing windows the set-up depends on the order of the wrapped assets (probe linked-inner-order, finding F-09e) - the other variants are not run there']
 EXPLANATION = 'theorems about the model assemble; metamorphic oracle on the real code'
 
 ADV = ['1', '11', '111', 'A', 'AA', 'a b', '0', '00', 'x_internal_y', 'n (m)', '10', '01', 'disp', 'nan', 'None', 'N1', '2', '12', '21', 'asset', 'node', 'mkt1 (N1)', 'é', ' ',
@@ -51,7 +62,178 @@ def scenarios(seed, tier):
         perm = list(range(len(s['assets'])))
         r2.shuffle(perm)
         s['perm'] = perm
+        # variant 'rename-inplace': what happened to the objects before they were renamed, and what the second run is given
+        s['inplace'] = {'first': r2.choice(['optimise', 'optimise', 'setup', 'none']), 'new_grid': r2.random() < 0.5,
+                        'permute': r2.random() < 0.3}
         yield 'gen%d' % i, s
+    for cid, s in linked_scenarios(seed, tier):
+        yield cid, s
+
+
+# ------------------------------------------------------------------ LinkedAsset stream (the generic generator has no LinkedAsset)
+LK_ADV = ['__', 'a__b', 'disp', 'bool_on', 'disp__lk_a', 'bool_on__lk_a', 'lk_internal_N1', '_internal_', 'x_internal_y', '1', '11', 'N1', 'nan']
+
+
+def gen_linked(r2, tier, differing=False):
+    """a small portfolio (MIP) around a LinkedAsset as in tests/test_portfolio.py::test_linked_asset: the wrapped portfolio holds a
+    CHPAsset / Plant with on-variable (asset 2 of the link, 'lk_a') and a second asset (asset 1, 'lk_b': another CHPAsset / Plant, or a
+    SimpleContract - at the power node or at an INTERNAL node behind a Transport); outside: power market, demand, heat sink, fuel market.
+    differing=False: all wrapped assets live on the same window (none / that of the LinkedAsset / a common own one).
+    differing=True : exactly one of the two linked wrapped assets gets a shorter window (probe 'linked-inner-order', finding F-09e)."""
+    g = gen.gen_grid(r2, tmin=3, tmax=6 if tier == 'quick' else 9, tz_prob=0.05)
+    T = scen.make_grid(g).T
+    prices = {}
+    fuel = r2.random() < 0.3
+    nodes = ['N1', 'N2'] + (['N3'] if fuel else [])
+    out = [{'type': 'SimpleContract', 'name': 'mkt1', 'nodes': ['N1'],
+            'args': {'min_cap': -40.0, 'max_cap': 40.0, 'price': gen.price_key(r2, prices, T, lo=0, hi=20), 'extra_costs': gen.q8(r2, 0.125, 4)}}]
+    if r2.random() < 0.6:
+        d = gen.q8(r2, 1, 6)
+        out.append({'type': 'SimpleContract', 'name': 'dem2', 'nodes': ['N1'], 'args': {'min_cap': -d, 'max_cap': -d}})
+    hs = {'type': 'SimpleContract', 'name': 'heat3', 'nodes': ['N2'], 'args': {'min_cap': -40.0, 'max_cap': 0.0}}
+    if r2.random() < 0.5:
+        hs['args']['price'] = gen.price_key(r2, prices, T, lo=0, hi=6)
+    out.append(hs)
+    if fuel:
+        out.append({'type': 'SimpleContract', 'name': 'fuel4', 'nodes': ['N3'],
+                    'args': {'min_cap': 0.0, 'max_cap': 40.0, 'price': gen.price_key(r2, prices, T, lo=0, hi=6)}})
+
+    def plant(name):
+        chp = r2.random() < 0.65
+        nn = (['N1', 'N2'] if chp else ['N1']) + (['N3'] if fuel and r2.random() < 0.6 else [])
+        return gen.gen_plant(r2, g, prices, T, name, nn, chp=chp, allow_mip=True)
+    a2 = plant('lk_a')
+    a2['args'].setdefault('min_cap', gen.q8(r2, 0.5, 2))            # guarantees the on-variable
+    v2 = 'bool_start' if ('start_costs' in a2['args'] and r2.random() < 0.25) else 'bool_on'
+    inner = [a2]
+    k1 = r2.choice(['plant', 'plant', 'simple', 'simple_internal'])
+    node1 = 'N1'
+    if k1 == 'plant':
+        a1 = plant('lk_b')
+    else:
+        node1 = 'N1' if k1 == 'simple' else 'lk_i'
+        a1 = {'type': 'SimpleContract', 'name': 'lk_b', 'nodes': [node1],
+              'args': {'min_cap': 0.0, 'max_cap': gen.q8(r2, 1, 6), 'price': gen.price_key(r2, prices, T, lo=0, hi=10)}}
+        if k1 == 'simple_internal':
+            nodes.append('lk_i')
+            inner.append({'type': 'Transport', 'name': 'lk_t', 'nodes': ['lk_i', 'N1'],
+                          'args': {'min_cap': 0.0, 'max_cap': gen.q8(r2, 1, 6), 'efficiency': r2.choice([1.0, 0.75, 0.5])}})
+    inner.insert(r2.randint(0, len(inner)), a1)
+    if r2.random() < 0.3:   # a third wrapped asset that takes no part in the link
+        inner.insert(r2.randint(0, len(inner)), gen.gen_simple_contract(r2, g, prices, T, 'lk_c', r2.choice(['N1', 'N2']), allow_opts=False))
+    largs = {'asset1_variable': ['lk_b', 'disp', node1], 'asset2_variable': ['lk_a', v2, None],
+             'time_back': r2.choice([0, 0, 1, 2]), 'time_forward': r2.choice([0, 0, 0, 1])}
+    if r2.random() < 0.4:
+        largs['asset2_time_already_running'] = float(r2.choice([0, 1, 2]))
+    linked = {'type': 'LinkedAsset', 'name': 'lk', 'nodes': ['N1', 'N2'], 'inner': inner, 'args': largs,
+              'refs': r2.choice(['names', 'objects'])}    # the link is given by names or by the Asset / Node objects
+    info = {}
+    if not differing:
+        wk = r2.choice(['none'] * 5 + ['linked', 'linked', 'inner', 'inner', 'inner_start'])
+        kinds = ['end_only', 'end_only', 'straddle_start', 'equal', 'covering', 'start_only', 'inside'] if wk != 'inner_start' else ['start_only', 'inside']
+        if wk != 'none':
+            w = gen.window(r2, g, kinds=kinds)
+            for tgt in ([linked] if wk == 'linked' else inner):
+                gen.put_window(tgt['args'], w)
+            wk = wk + ':' + w[0]
+        info['window'] = wk
+    else:
+        which = r2.choice(['lk_a', 'lk_b'])
+        side = r2.choice(['start', 'end', 'end'])
+        k = r2.randint(1, max(1, g['T_nominal'] - 1))
+        pt = gen.P(g, k)
+        if gen.ok_local(pt, g):
+            [x for x in inner if x['name'] == which][0]['args'][side] = gen.dtv(pt)
+        # the two linked assets at the two ends of the wrapped list (which one comes last is drawn; the probe reverses the list)
+        ends = [x for x in inner if x['name'] in ('lk_a', 'lk_b')]
+        r2.shuffle(ends)
+        inner[:] = [ends[0]] + [x for x in inner if x['name'] not in ('lk_a', 'lk_b')] + [ends[1]]
+        info = {'shorter': which, 'side': side, 'step': k, 'last': ends[1]['name']}
+    out.insert(r2.randint(0, len(out)), linked)
+    if r2.random() < 0.3:
+        out.append(gen.gen_storage(r2, g, prices, T, 'st9', [r2.choice(['N1', 'N2'])], False, False))
+    return {'grid': g, 'nodes': nodes, 'prices': prices, 'assets': out, 'linked': info}
+
+
+def linked_scenarios(seed, tier):
+    n, m = (90, 12) if tier == 'quick' else (500, 40)
+    rnd = random.Random(seed * 7919 + 909)
+    for i in range(n):
+        r2 = random.Random(rnd.getrandbits(48))
+        s = gen_linked(r2, tier)
+        names = [a['name'] for a in scen.all_asset_specs(s)]
+        apool = list(dict.fromkeys(ADV + LK_ADV))
+        pool = r2.sample(apool, len(names)) if r2.random() < 0.8 else ['z%d' % k for k in range(len(names))]
+        s['amap'] = {nm: pool[k] for k, nm in enumerate(names)}
+        npool = r2.sample(apool, len(s['nodes']))
+        s['nmap'] = {nm: npool[k] for k, nm in enumerate(s['nodes'])}
+        perm = list(range(len(s['assets'])))
+        r2.shuffle(perm)
+        s['perm'] = perm
+        s['inplace'] = {'first': r2.choice(['optimise', 'optimise', 'setup', 'none']), 'new_grid': r2.random() < 0.5,
+                        'permute': r2.random() < 0.3}
+        yield 'linked%d' % i, s
+    for i in range(m):
+        r2 = random.Random(rnd.getrandbits(48))
+        s = gen_linked(r2, tier, differing=True)
+        s['probe'] = 'linked-inner-order'
+        yield 'linked-inner-order%d' % i, s
+
+
+def is_wrapper(spec):
+    return spec['type'] in ('StructuredAsset', 'LinkedAsset')
+
+
+def has_linked(scn):
+    return any(a['type'] == 'LinkedAsset' for a in scn['assets'])
+
+
+def build(scn):
+    """scen.build, and LinkedAsset specs built here: the link given by names (scen.build_asset does that) or, spec['refs'] ==
+    'objects', by the Asset and Node objects themselves"""
+    if not has_linked(scn):
+        return scen.build(scn)
+    from eaopack.portfolio import Portfolio, LinkedAsset
+    tg = scen.make_grid(scn['grid'])
+    nodes = scen.make_nodes(scn['nodes'])
+    assets = []
+    for sp in scn['assets']:
+        if sp['type'] != 'LinkedAsset':
+            assets.append(scen.build_asset(sp, nodes))
+            continue
+        inner = [scen.build_asset(x, nodes) for x in sp['inner']]
+        args = scen.dec(copy.deepcopy(sp['args']))
+        if sp.get('refs') == 'objects':
+            by = {x.name: x for x in inner}
+            for k in ('asset1_variable', 'asset2_variable'):
+                a, v, n = args[k]
+                args[k] = (by[a], v, nodes[n] if n is not None else None)
+        assets.append(LinkedAsset(portfolio=Portfolio(inner), name=sp['name'], nodes=[nodes[n] for n in sp['nodes']], **args))
+    prices = {k: np.asarray(v, dtype=float) for k, v in scn.get('prices', {}).items()}
+    return Portfolio(assets), tg, prices, nodes
+
+
+def rename_scn(scn, amap, nmap):
+    """scen.rename_scenario, and the names inside the link of a LinkedAsset"""
+    s = scen.rename_scenario(scn, amap, nmap)
+    for a in scen.all_asset_specs(s):
+        if a['type'] == 'LinkedAsset':
+            for k in ('asset1_variable', 'asset2_variable'):
+                an, v, nn = a['args'][k]
+                a['args'][k] = [amap.get(an, an), v, None if nn is None else nmap.get(nn, nn)]
+    return s
+
+
+def setup_rec(scn):
+    """pf.setup_mono with the builder of this file"""
+    if not has_linked(scn):
+        return pf.setup_mono(scn)
+    portf, tg, prices, nodes = build(scn)
+    rec = {'portf': portf, 'tg': tg, 'prices': prices, 'scn': scn}
+    with impl.Quiet(), impl.Capture(portf) as cap:
+        rec['op'] = portf.setup_optim_problem(prices, tg)
+    rec['captured'] = {k: v[-1] for k, v in cap.caught.items()}
+    return rec
 
 
 def transport_back(rec_var, rec_orig, order):
@@ -70,14 +252,149 @@ def transport_back(rec_var, rec_orig, order):
     return x
 
 
+def link_is_internal(a):
+    """LinkedAsset whose link names a node that is not one of its own (outer) nodes"""
+    return any(n is not None and n not in a.node_names for n in (a.node1_name, a.node2))
+
+
+def rename_objects(portf, nodes, amap, nmap):
+    """rename the very Node and Asset objects of a portfolio in place (`Node.name` and `Asset.name` are plain public attributes):
+    every node, every asset of the portfolio, the base asset of a scaled asset and the assets wrapped by a structured asset - each
+    object exactly once, by its own present name.  A `Portfolio` object files its nodes under their names when it is created, so the
+    portfolio wrapped by a structured asset is created anew from the same (renamed) asset objects, exactly as the outer one.
+    Returns the list of the (same) outer asset objects."""
+    from eaopack.assets import Asset
+    from eaopack.portfolio import Portfolio, LinkedAsset
+    # a LinkedAsset keeps the NAMES of the two nodes of its link as strings from its construction: renaming its nodes (own and
+    # wrapped) in place is out of scope (ASSUMPTIONS); nodes that no LinkedAsset touches are renamed
+    keep = set()
+    for a in portf.assets:
+        if isinstance(a, LinkedAsset):
+            keep |= set(id(n) for n in a.nodes) | set(id(n) for x in a.portfolio.assets for n in x.nodes)
+    used = set(n.name for n in nodes.values() if id(n) in keep)     # (names stay distinct: a new name that a kept node bears is varied)
+    for n in nodes.values():
+        if id(n) not in keep:
+            new = nmap.get(n.name, n.name)
+            while new in used:
+                new += "'"
+            used.add(new)
+            n.name = new
+    seen = set()
+    kept_assets = set(a.name for a in portf.assets if isinstance(a, LinkedAsset) and link_is_internal(a))
+
+    def ren(a):
+        if id(a) in seen:
+            return
+        seen.add(id(a))
+        if isinstance(a, LinkedAsset) and link_is_internal(a):
+            # TODO (reported, decision pending): the link refers to an INTERNAL node; LinkedAsset.__init__ stores that as the string
+            # <own name>_internal_<node name> (portfolio.py, node1_name / node2), so renaming the LinkedAsset itself in place makes
+            # its set-up raise IndexError.  Same mechanism as for its nodes; until decided such a LinkedAsset keeps its own name
+            # in this variant (its wrapped assets and all other assets are renamed).  The rebuilt variants rename it.
+            pass
+        else:
+            new = amap.get(a.name, a.name)
+            while new in kept_assets:
+                new += "'"
+            a.name = new
+        b = a.__dict__.get('base_asset')
+        if isinstance(b, Asset):
+            ren(b)
+        p = a.__dict__.get('portfolio')
+        if isinstance(p, Portfolio):
+            for x in p.assets:
+                ren(x)
+            a.portfolio = Portfolio(list(p.assets))
+    for a in portf.assets:
+        ren(a)
+    return list(portf.assets)
+
+
+def setup_inplace(base, amap, nmap, opts, perm):
+    """variant 'rename-inplace': the objects are built ONCE under the original names and used (optimised / set up / left alone),
+    then the same objects are renamed in place and handed to a new Portfolio; returns a record like pf.setup_mono"""
+    from eaopack.portfolio import Portfolio
+    portf, tg, prices, nodes = build(base)
+    first = opts.get('first', 'optimise')
+    if first != 'none':
+        rec0 = {'portf': portf, 'tg': tg, 'prices': prices, 'scn': base}
+        with impl.Quiet():
+            rec0['op'] = portf.setup_optim_problem(prices, tg)
+        if first == 'optimise':
+            pf.solve_rec(rec0)
+    assets = rename_objects(portf, nodes, amap, nmap)
+    if perm is not None:
+        assets = [assets[i] for i in perm]
+    portf2 = Portfolio(assets)
+    tg2 = scen.make_grid(base['grid']) if opts.get('new_grid') else tg
+    rec = {'portf': portf2, 'tg': tg2, 'prices': prices, 'scn': rename_scn(base, amap, nmap)}
+    with impl.Quiet(), impl.Capture(portf2) as cap:
+        rec['op'] = portf2.setup_optim_problem(prices, tg2)
+    rec['captured'] = {k: v[-1] for k, v in cap.caught.items()}
+    return rec
+
+
+def probe_linked_inner_order(scn, drv):
+    """probe 'linked-inner-order' (finding F-09e): a LinkedAsset whose two linked wrapped assets live on DIFFERENT windows, set up with
+    the wrapped assets in the drawn order and in the reversed order.  The order of the wrapped assets is no more part of the input's
+    meaning than the order of the assets of a portfolio: same outcome (sets up or not, size, status, value) is expected."""
+    r = {'evaluated': 2, 'nontrivial': False, 'features': ['probe:linked-inner-order'], 'disagreements': [], 'violations': []}
+    base = {k: v for k, v in scn.items() if k not in ('probe', 'linked')}
+    info = scn.get('linked', {})
+    res = []
+    for rev in (False, True):
+        sv = copy.deepcopy(base)
+        for a in sv['assets']:
+            if rev and a['type'] == 'LinkedAsset':
+                a['inner'] = list(reversed(a['inner']))
+        order = [[x['name'] for x in a['inner']] for a in sv['assets'] if a['type'] == 'LinkedAsset'][0]
+        try:
+            rec = setup_rec(sv)
+        except Exception as e:
+            res.append({'order': order, 'raises': '%s (%s)' % (type(e).__name__, str(e)[:80])})
+            continue
+        pf.solve_rec(rec)
+        res.append({'order': order, 'raises': None, 'size': (len(rec['op'].c), len(rec['op'].cType)),
+                    'value': None if isinstance(rec['res'], str) else float(rec['res'].value)})
+    a, b = res
+    r['features'].append('probe-outcome:%s/%s' % tuple('raises' if x['raises'] else 'sets-up' for x in res))
+    r['nontrivial'] = not (a['raises'] and b['raises'])
+    r['observed'] = res
+    what = None
+    if bool(a['raises']) != bool(b['raises']):
+        ok_, bad = (a, b) if b['raises'] else (b, a)
+        what = 'raises'
+        msg = 'wrapped assets in the order %s: sets up (value %s); in the order %s: set-up raises %s' % (ok_['order'], ok_['value'], bad['order'], bad['raises'])
+    elif not a['raises']:
+        if a['size'] != b['size']:
+            what, msg = 'size', 'wrapped assets in the order %s: %d variables / %d rows; in the order %s: %d / %d' % ((a['order'],) + a['size'] + (b['order'],) + b['size'])
+        elif (a['value'] is None) != (b['value'] is None):
+            what, msg = 'status', 'wrapped assets in the order %s: value %s; in the order %s: value %s' % (a['order'], a['value'], b['order'], b['value'])
+        elif a['value'] is not None and abs(a['value'] - b['value']) > 2e-6 * max(1.0, abs(a['value'])):
+            what, msg = 'value', 'wrapped assets in the order %s: optimal value %.8g; in the order %s: %.8g' % (a['order'], a['value'], b['order'], b['value'])
+    if what:
+        r['violations'].append({'oracle': 'names_and_order',
+                                'detail': 'linked-inner-order (wrapped asset %r has its own %s at step %s, the other linked one has not): %s' % (
+                                    info.get('shorter'), info.get('side'), info.get('step'), msg),
+                                'facts': {'kind': 'linked_inner_windows', 'variant': 'permute-inner', 'what': what,
+                                          'shorter': info.get('shorter'), 'side': info.get('side')}})
+    return r
+
+
 def run_case(scn, drv):
     r = {'evaluated': 1, 'nontrivial': False, 'features': [], 'disagreements': [], 'violations': []}
     feats = r['features']
-    base = {k: v for k, v in scn.items() if k not in ('amap', 'nmap', 'perm')}
+    if scn.get('probe') == 'linked-inner-order':
+        return probe_linked_inner_order(scn, drv)
+    base = {k: v for k, v in scn.items() if k not in ('amap', 'nmap', 'perm', 'inplace', 'linked')}
     for a in base['assets']:
         feats.append('asset:' + a['type'])
+        if a['type'] == 'LinkedAsset':
+            feats.append('linked:window=%s' % scn.get('linked', {}).get('window'))
+            feats.append('linked:refs=%s' % a.get('refs'))
+            feats.append('linked:node1=%s' % ('internal' if a['args']['asset1_variable'][2] not in a['nodes'] else 'external'))
     try:
-        rec = pf.setup_mono(base)
+        rec = setup_rec(base)
     except Exception as e:
         feats.append('setup-error:' + impl.err_class(e))
         return r
@@ -89,30 +406,43 @@ def run_case(scn, drv):
         feats.append('unsolved:' + rec['res'])
     V = None if isinstance(rec['res'], str) else float(rec['res'].value)
     nA = len(base['assets'])
-    variants = [('rename', scen.rename_scenario(base, scn['amap'], scn['nmap']), list(range(nA)))]
+    variants = [('rename', rename_scn(base, scn['amap'], scn['nmap']), list(range(nA)))]
     sp_ = copy.deepcopy(base)
     sp_['assets'] = [base['assets'][i] for i in scn['perm']]
     variants.append(('permute', sp_, list(scn['perm'])))
-    both = scen.rename_scenario(sp_, scn['amap'], scn['nmap'])
+    both = rename_scn(sp_, scn['amap'], scn['nmap'])
     variants.append(('rename+permute', both, list(scn['perm'])))
-    if any(a['type'] == 'StructuredAsset' and len(a.get('inner', [])) >= 2 for a in base['assets']):
+    if any(is_wrapper(a) and len(a.get('inner', [])) >= 2 for a in base['assets']):
         # the order of the assets INSIDE a structured asset is as irrelevant as the order in the portfolio (value only: the
         # variable layout inside the wrapper changes)
         si = copy.deepcopy(base)
         for a in si['assets']:
-            if a['type'] == 'StructuredAsset':
+            if is_wrapper(a):
                 a['inner'] = list(reversed(a['inner']))
         variants.append(('permute-inner', si, None))
+    # the same objects renamed in place (not rebuilt from the scenario): names that an object kept from its construction or from
+    # an earlier set-up show only here
+    ipo = scn.get('inplace') or {'first': 'optimise', 'new_grid': False, 'permute': False}
+    ip_perm = list(scn['perm']) if ipo.get('permute') else None
+    variants.append(('rename-inplace', ('inplace', ipo, ip_perm), ip_perm or list(range(nA))))
+    feats.append('inplace:first=%s' % ipo.get('first'))
 
     def viol(msg, **facts):
         r['violations'].append({'oracle': 'names_and_order', 'detail': msg, 'facts': facts})
     for tag, sv, order in variants:
         r['evaluated'] += 1
         try:
-            rv = pf.setup_mono(sv)
+            if isinstance(sv, tuple):
+                rv = setup_inplace(base, scn['amap'], scn['nmap'], sv[1], sv[2])
+            else:
+                rv = setup_rec(sv)
         except Exception as e:
             viol('%s: set-up raises %s (%s) although the original portfolio sets up' % (tag, type(e).__name__, str(e)[:120]), variant=tag, what='raises')
             continue
+        if isinstance(sv, tuple):
+            # asset problems of objects with a past: the hypotheses of the assembly theorems once more (e.g. dispatch rows only at
+            # the asset's own - present - nodes)
+            r['disagreements'] += pf.hyp_wf(rv)
         r['disagreements'] += pf.corr_assemble(rv, drv)
         # problems must have the same numbers up to the block permutation
         if len(rv['op'].c) != len(rec['op'].c) or len(rv['op'].cType) != len(rec['op'].cType):
